@@ -74,7 +74,8 @@ def step (s : St) (ws : List String) : St × String :=
   | ["snapshot"] => let n' := snapshot n; ({ s with n := some n' }, s!"snap={n'.snapIdx}")
   | ["restart"] =>
     let (n', re) := restart n s.ledger
-    ({ s with n := some n' }, s!"redelivered={re.length} mint={showH n'.queue} " ++ stateStr n' s.ledger)
+    ({ s with n := some n' }, s!"redelivered={re.length} mint={showH n'.queue} " ++ stateStr n' s.ledger ++ s!" hs={n'.hs.1}/{n'.hs.2.1}/{n'.hs.2.2}")
+  | ["hs", t, v, c] => ({ s with n := some (setHardState n (t.toNat?.getD 0) (v.toNat?.getD 0) (c.toNat?.getD 0)) }, "ok")
   | ["state"] => (s, stateStr n s.ledger)
   | _ => (s, "bad-op")
 
